@@ -20,7 +20,7 @@ def run(cmd, cwd, env=None, timeout=600):
 def main(props):
     for prop in props:
         wt = f"/tmp/wt/{prop}"
-        for v in ("a", "b", "c", "d"):
+        for v in ("a", "b", "c", "d", "e", "f", "g", "h"):
             sd = f"{wt}/_seed/{v}"
             if not os.path.exists(f"{sd}/patch.diff"):
                 continue
